@@ -29,6 +29,10 @@ pub const MODES: &[&[&str]] = &[
     &["--file-style", "raw", "--hunk-header-style", "raw", "--line-numbers"],
     &["--color-only", "--side-by-side"],
     &["--keep-plus-minus-markers", "--hunk-header-style", "file line-number syntax", "--relative-paths"],
+    // decorations sized to their text, panels sized to the terminal: widths computed from content
+    &["--width", "variable", "--file-decoration-style", "box", "--hunk-header-decoration-style", "box ul"],
+    &["--width", "variable", "--side-by-side", "--line-numbers-left-format", "{nm}|", "--line-numbers-right-format", "{np}|"],
+    &["--line-numbers", "--line-numbers-left-format", "{nm}:", "--line-numbers-right-format", "{np}:", "--tabs", "2"],
 ];
 
 /// mode numbers from here on: options drawn from the seeded swarm instead of MODES
@@ -90,6 +94,11 @@ pub fn gen_case_full(seed: u64, idx: usize, kinds: &[SectionKind], mode: usize, 
         for a in MODES[mode % MODES.len()] {
             args.push((*a).into());
         }
+    }
+    // a mode may bring its own --width: the later one replaces the default
+    if args.iter().filter(|a| *a == "--width").count() > 1 {
+        let first = args.iter().position(|a| a == "--width").unwrap();
+        args.drain(first..first + 2);
     }
     if names.is_empty() && mode < SWARM && rng.chance(1, 2) {
         args.push("--syntax-theme".into());
